@@ -296,6 +296,9 @@ def run_case(case):
                                got=got, want=want, x=xk))
                 break
     ctx.iter_hook = hook
+    if case["i"] % 3 == 1:
+        kw["do_logging"] = False      # as most callers run it (the stored-objective hook, which needs point numbers, is idle then)
+        st["runs_without_logging"] = 1
     run = engine.run_solve(lambda x: A @ x - b, x0.copy(), ctx=ctx, timeout=CASE_TIMEOUT["quick"] - 50, solve_kwargs=kw)
     run.cfg = None
     oracles.common_stats(run, st)
